@@ -1,6 +1,7 @@
 package symex
 
 import (
+	"path/filepath"
 	"strconv"
 	"strings"
 
@@ -90,6 +91,32 @@ func registerStringStubs(ex *Exec) {
 			return smt.Ite(inRange(b, 'a', 'z'), smt.Sub(b, smt.Const(8, 32)), b)
 		})
 	}
+	// filepath.Ext / path.Ext: the suffix beginning at the final dot of the final path element (empty if none)
+	ext := func(ex *Exec, st *State, site ssa.Instruction, fn *ssa.Function, args []Value) Value {
+		s := args[0].(*StrV)
+		if cs, ok := s.Concrete(); ok {
+			return ConcreteStr(filepath.Ext(cs))
+		}
+		n := len(s.B)
+		// start = index of the last '.' that has no '/' after it; n+1 = none
+		var res Value = &StrV{Len: bv64(0), B: nil}
+		// candidates from the left, later (further right) candidates override earlier ones
+		noSlashAfter := make([]*smt.Term, n+1)
+		noSlashAfter[n] = smt.True
+		for i := n - 1; i >= 0; i-- {
+			inb := smt.Ult(bv64(int64(i)), s.Len)
+			noSlashAfter[i] = smt.And(noSlashAfter[i+1], smt.Or(smt.Not(inb), smt.Not(smt.Eq(s.B[i], smt.Const(8, '/')))))
+		}
+		for i := 0; i < n; i++ {
+			inb := smt.Ult(bv64(int64(i)), s.Len)
+			isDot := smt.And(inb, smt.And(smt.Eq(s.B[i], smt.Const(8, '.')), noSlashAfter[i+1]))
+			cand := &StrV{Len: smt.Sub(s.Len, bv64(int64(i))), B: append([]*smt.Term(nil), s.B[i:]...)}
+			res = mergeV(isDot, cand, res)
+		}
+		return res
+	}
+	S["path/filepath.Ext"] = ext
+	S["path.Ext"] = ext
 	S["strings.HasSuffix"] = func(ex *Exec, st *State, site ssa.Instruction, fn *ssa.Function, args []Value) Value {
 		return hasSuffix(args[0].(*StrV), args[1].(*StrV))
 	}
